@@ -75,12 +75,16 @@ def all_metas():
         m['_name'] = os.path.basename(f)[:-5]
         metas.append(m)
     for f in sorted(glob.glob(os.path.join(ROOT, 'twins', '*.json'))):
-        m = json.load(open(f))
-        m['_name'] = 'twin_' + os.path.basename(f)[:-5]
-        m['_patch_path'] = os.path.join(ROOT, 'twins', m['patch'])
-        m['expect_silent'] = True
-        m['expect_key_contains'] = ''
-        metas.append(m)
+        m0 = json.load(open(f))
+        # a twin may name several properties ("C08,C10"): every one of their checks must stay silent on it
+        for pr in [x.strip() for x in m0['property'].split(',') if x.strip()]:
+            m = dict(m0)
+            m['property'] = pr
+            m['_name'] = 'twin_' + os.path.basename(f)[:-5] + ('' if ',' not in m0['property'] else '@' + pr)
+            m['_patch_path'] = os.path.join(ROOT, 'twins', m0['patch'])
+            m['expect_silent'] = True
+            m['expect_key_contains'] = ''
+            metas.append(m)
     for f in sorted(glob.glob(os.path.join(ROOT, 'seeded', '*', 'meta.json'))):
         s = json.load(open(f))
         for i, ex in enumerate(s.get('expect') or []):
